@@ -82,6 +82,34 @@ EXC = {
 }
 
 
+def die(how):
+    """Kill this process (only ever used in real child processes)."""
+    import signal
+    try:
+        sys.stdout.flush()
+    except Exception:       # stdout is already closed while the child reports
+        pass
+    if how == 'exit0':
+        os._exit(0)
+    if how == 'exit3':
+        os._exit(3)
+    if how == 'kill':
+        os.kill(os.getpid(), signal.SIGKILL)
+    if how == 'segv':
+        import resource
+        resource.setrlimit(resource.RLIMIT_CORE, (0, 0))
+        os.kill(os.getpid(), signal.SIGSEGV)
+    if how == 'sysexit0':
+        sys.exit(0)
+    if how == 'sysexit3':
+        sys.exit(3)
+    raise ValueError(how)
+
+
+def in_child():
+    return '--resume-layer' in sys.argv
+
+
 def mkexc(name, msg):
     if name == 'Chained':        # raise X from Y
         e = ValueError(msg)
@@ -142,6 +170,11 @@ def _hook_body(lname, hook, faults):
         for act in HOOK_ACTIONS.get((lname, hook, k), ()):
             thread_action(act)
     exc = faults.get((lname, hook))
+    if exc and exc.startswith('DIE:'):
+        if in_child():
+            emit('L', lname, hook, 'die', exc)
+            die(exc[4:])
+        exc = None
     if exc:
         emit('L', lname, hook, '!', exc)
         raise mkexc(exc, '%s.%s %s' % (lname, hook, exc))
@@ -179,6 +212,7 @@ def make_layers(spec_layers, modname):
 
 # ----------------------------------------------------------------------- tests
 
+_STR_CALLS = 0
 THREADS = {}      # tid -> dict(ev=Event, done=Event, ident=int, name=str)
 
 
@@ -295,6 +329,16 @@ class VTCase(unittest.TestCase):
             if 'lv' in li:
                 self.level = li['lv']
 
+    def __str__(self):
+        sd = self._vt.get('str_die')
+        if sd and in_child() and sys.argv[sys.argv.index('--resume-layer') + 1].endswith('.' + str(self._vt.get('l'))):
+            global _STR_CALLS
+            _STR_CALLS += 1
+            if _STR_CALLS == sd[0]:
+                emit('t', self._vt['n'], 'str_die', _STR_CALLS)
+                die(sd[1])
+        return super().__str__()
+
     def run(self, result=None):
         emit('t', self._vt['n'], 'run>')
         try:
@@ -315,6 +359,8 @@ class VTCase(unittest.TestCase):
             self.addCleanup(self._bad_cleanup)
         if s == 'kbint_setup':
             raise KeyboardInterrupt()
+        if s.startswith('die_setup:') and in_child():
+            die(s.split(':', 1)[1])
 
     def _bad_cleanup(self):
         emit('t', self._vt['n'], 'cleanup')
@@ -323,6 +369,8 @@ class VTCase(unittest.TestCase):
     def tearDown(self):
         vt = self._vt
         emit('t', vt['n'], 'tearDown')
+        if vt['s'].startswith('die_teardown:') and in_child():
+            die(vt['s'].split(':', 1)[1])
         if vt['s'] in ('teardown_err', 'body+teardown', 'fail+teardown'):
             raise mkexc(vt.get('e2', 'KeyError'), 'tearDown of %s' % vt['n'])
 
@@ -333,6 +381,12 @@ class VTCase(unittest.TestCase):
         for act in vt.get('th') or ():
             thread_action(act)
         s = vt['s']
+        if s.startswith('die_body:'):
+            if in_child():
+                die(s.split(':', 1)[1])
+            return
+        if s.startswith('die_setup:') or s.startswith('die_teardown:'):
+            return
         if s in ('pass', 'teardown_err', 'cleanup_err', 'uxs', 'skip_dec',
                  'skip_cls'):
             return
@@ -506,7 +560,13 @@ import json, unittest
 from vt import worldrt
 worldrt._open_trace()
 worldrt.emit('import', __name__)
-_B = worldrt.build(json.loads(%r))
+_SPEC = json.loads(%r)
+if _SPEC.get('import_die') and worldrt.in_child():
+    import sys as _s
+    _l = _SPEC.get('import_die_layer')
+    if not _l or _s.argv[_s.argv.index('--resume-layer') + 1].endswith('.' + _l):
+        worldrt.die(_SPEC['import_die'])
+_B = worldrt.build(_SPEC)
 for _k, _v in vars(_B.module).items():
     if not _k.startswith('__'):
         globals()[_k] = _v
